@@ -431,6 +431,21 @@ def _mut2(name, op):
     return wrapper
 
 
+def _sim_stat(name):
+    orig = _ORIG[name]
+
+    def wrapper(path, *a, **kw):
+        sim = SIM
+        if sim is not None and kw.get("dir_fd") is None:
+            label = sim.label(path)
+            if label is not None:
+                sim.gate("stat", label)
+        return orig(path, *a, **kw)
+
+    wrapper.__name__ = name
+    return wrapper
+
+
 def sim_os_open(path, flags, mode=0o777, *, dir_fd=None):
     sim = SIM
     label = sim.label(path) if sim is not None and dir_fd is None else None
@@ -549,6 +564,10 @@ def install(cfg):
     os.symlink = _mut2("symlink", "symlink")
     os.link = _mut2("link", "link")
     os.open = sim_os_open
+    if any(f.get("op") == "stat" for f in sim.faults) or any((m.get("at") or {}).get("op") == "stat" for m in sim.mutations):
+        # stat-level faults (a directory that can be listed but not searched): only patched when the plan asks for it
+        os.stat = _sim_stat("stat")
+        os.lstat = _sim_stat("lstat")
     shutil._USE_CP_SENDFILE = False
     if hasattr(shutil, "_USE_CP_COPY_FILE_RANGE"):
         shutil._USE_CP_COPY_FILE_RANGE = False
